@@ -1,22 +1,47 @@
 #!/bin/bash
 # Re-runs every seeded change under /verif/seeded against the checks recorded in its meta.json (caught_by),
-# on /repo's current HEAD. A patch that no longer applies (the code it touched was repaired since) is reported as such.
+# on /repo's current HEAD, each in its own scratch worktree (the checks are built against the patched
+# worktree; /repo is not touched). A patch that no longer applies (the code it touched was repaired since)
+# is reported as such. Seeds are grouped by their first recorded check and the groups run in parallel.
+# usage: tools/seedregress.sh [id-glob]      e.g. tools/seedregress.sh 'C13-*'
 export GOFLAGS=-mod=mod GOPROXY=off GOSUMDB=off GOTOOLCHAIN=local
 cd /verif
-for d in /verif/seeded/*/; do
+GLOB="${1:-*}"
+one() { # $1 = seeded dir
+  local d="$1" id props WT MOD res P RACE rc
   id=$(basename "$d")
   props=$(python3 -c "import json;print(' '.join(json.load(open('$d/meta.json')).get('caught_by') or []))")
-  [ -z "$props" ] && { echo "$id: no check recorded"; continue; }
-  if ! git -C /repo apply --check "$d/patch.diff" 2>/dev/null; then echo "$id: patch no longer applies to HEAD"; continue; fi
-  git -C /repo apply "$d/patch.diff"
+  [ -z "$props" ] && { echo "$id: no check recorded"; return; }
+  WT=/tmp/wt/regress-$id
+  git -C /repo worktree remove --force "$WT" 2>/dev/null
+  git -C /repo worktree add -q --detach "$WT" HEAD || { echo "$id: worktree failed"; return; }
+  if ! git -C "$WT" apply "$d/patch.diff" 2>/dev/null; then echo "$id: patch no longer applies to HEAD"; git -C /repo worktree remove --force "$WT"; return; fi
+  MOD=/verif/.build/regress-$id.mod
+  sed "s#=> /repo#=> $WT#" /verif/sim/go.mod > "$MOD"
+  cat "$WT/go.sum" /verif/sim/go.sum.extra | sort -u > "${MOD%.mod}.sum"
   res=""
   for P in $props; do
     RACE=""; [ "$P" = "C19" ] && RACE="-race"
-    ( cd /verif/sim && go build -tags verif $RACE -o /verif/.build/simkv-seed . ) || { res="$res $P:buildfail"; continue; }
-    VERIF_WATCHDOG_S=600 VERIF_DIR=/verif ./.build/simkv-seed check -prop "$P" -tier quick -no-evidence >/tmp/wt/regress.out 2>&1
+    ( cd /verif/sim && go build -modfile="$MOD" -tags verif $RACE -o /verif/.build/simkv-regress-$id . ) || { res="$res $P:buildfail"; continue; }
+    VERIF_WATCHDOG_S=1200 VERIF_DIR=/verif ./.build/simkv-regress-$id check -prop "$P" -tier quick -no-evidence >/dev/null 2>&1
     rc=$?
     res="$res $P:rc=$rc"
   done
-  git -C /repo checkout -- .
+  rm -f "$MOD" "${MOD%.mod}.sum" /verif/.build/simkv-regress-$id
+  git -C /repo worktree remove --force "$WT"
   echo "$id:$res"
+}
+mkdir -p /verif/.build /tmp/wt
+for G in C03 C05 C08 C11 C12 C13 C18 C19; do
+  ( for d in /verif/seeded/$GLOB/; do
+      [ -f "$d/meta.json" ] || continue
+      first=$(python3 -c "import json;c=json.load(open('$d/meta.json')).get('caught_by') or ['-'];print(c[0])")
+      [ "$first" = "$G" ] && one "$d"
+    done ) &
 done
+( for d in /verif/seeded/$GLOB/; do
+    [ -f "$d/meta.json" ] || continue
+    first=$(python3 -c "import json;c=json.load(open('$d/meta.json')).get('caught_by') or ['-'];print(c[0])")
+    [ "$first" = "-" ] && echo "$(basename $d): no check recorded"
+  done )
+wait
